@@ -280,7 +280,7 @@ func solveAll(obls []*Obligation, o *checkOpts) {
 			// obligation is reported as failed.
 			ob.Res = SolveVariants(files, to, 0, o.tier == "thorough" && ob.Expect == "unsat")
 			if ob.Expect == "unsat" {
-				for attempt := 1; attempt <= 2 && (ob.Res.Status == "timeout" || ob.Res.Status == "unknown"); attempt++ {
+				for attempt := 1; attempt <= 2 && (ob.Res.Status == "timeout" || ob.Res.Status == "unknown" || ob.Res.Status == "error"); attempt++ {
 					r2 := SolveVariants(files, to*2, 7919*attempt+o.seed, false)
 					r2.Secs += ob.Res.Secs
 					if r2.Status == "unsat" || r2.Status == "sat" {
